@@ -498,6 +498,98 @@ def twins_swap_independent(fn_name, src):
             yield f"swap-independent:{fn_name}:{i}", ast.unparse(t2)
 
 
+def twins_reorder_elif(fn_name, src):
+    """if x == 'a': A elif x == 'b': B [else: C]  ->  the same chain with its first two arms exchanged (the tests compare
+    one side-effect-free expression with distinct constants, so exactly one arm can fire whatever the order)"""
+    def chain_of(n):
+        arms = []
+        cur = n
+        while True:
+            arms.append(cur)
+            if len(cur.orelse) == 1 and isinstance(cur.orelse[0], ast.If):
+                cur = cur.orelse[0]
+            else:
+                break
+        return arms
+
+    def eligible(n, parent_is_elif):
+        if not isinstance(n, ast.If) or parent_is_elif:
+            return False
+        arms = chain_of(n)
+        if len(arms) < 2:
+            return False
+        subj, consts = None, set()
+        for a in arms[:2]:
+            t = a.test
+            if not (isinstance(t, ast.Compare) and len(t.ops) == 1 and isinstance(t.ops[0], ast.Eq) and isinstance(t.comparators[0], ast.Constant) and _pure(t.left)):
+                return False
+            k = ast.dump(t.left)
+            if subj is None:
+                subj = k
+            if k != subj or repr(t.comparators[0].value) in consts:
+                return False
+            consts.add(repr(t.comparators[0].value))
+        return True
+
+    def sites(tree):
+        out = []
+        elifs = set()
+        for n in ast.walk(tree):
+            if isinstance(n, ast.If) and len(n.orelse) == 1 and isinstance(n.orelse[0], ast.If):
+                elifs.add(id(n.orelse[0]))
+        for n in ast.walk(tree):
+            if eligible(n, id(n) in elifs):
+                out.append(n)
+        return out
+
+    n_sites = len(sites(ast.parse(src)))
+    for i in range(n_sites):
+        if not _want(i):
+            continue
+        t2 = ast.parse(src)
+        a = sites(t2)[i]
+        b = a.orelse[0]
+        a.test, b.test = b.test, a.test
+        a.body, b.body = b.body, a.body
+        yield f"reorder-elif:{fn_name}:{i}", ast.unparse(t2)
+
+
+def twins_kw_to_positional(fn_name, src):
+    """f(a, name=v)  ->  f(a, v)  when f is a function or class of the package whose parameter at that position is `name`
+    (resolved by the unique definition of that name in the analysed files)"""
+    defs = {}
+    for other in PY_TARGETS:
+        try:
+            tr = ast.parse(_read(other))
+        except (FileNotFoundError, SyntaxError):
+            continue
+        for n in tr.body:
+            if isinstance(n, ast.FunctionDef):
+                defs.setdefault(n.name, []).append([a.arg for a in n.args.posonlyargs + n.args.args])
+            elif isinstance(n, ast.ClassDef):
+                for m in n.body:
+                    if isinstance(m, ast.FunctionDef) and m.name == "__init__":
+                        defs.setdefault(n.name, []).append([a.arg for a in m.args.posonlyargs + m.args.args][1:])
+
+    def site(c):
+        if not (isinstance(c, ast.Call) and isinstance(c.func, ast.Name) and c.keywords and len(defs.get(c.func.id, [])) == 1):
+            return False
+        if any(isinstance(a, ast.Starred) for a in c.args) or any(k.arg is None for k in c.keywords):
+            return False
+        ps = defs[c.func.id][0]
+        return len(c.args) < len(ps) and c.keywords[0].arg == ps[len(c.args)]
+
+    tree = ast.parse(src)
+    n_sites = sum(1 for c in ast.walk(tree) if site(c))
+    for i in range(n_sites):
+        if not _want(i):
+            continue
+        t2 = ast.parse(src)
+        c = [x for x in ast.walk(t2) if site(x)][i]
+        c.args.append(c.keywords.pop(0).value)
+        yield f"kw-to-positional:{fn_name}:{i}", ast.unparse(t2)
+
+
 def twins_pyx():
     for fn, old, new in PYX_RENAMES:
         s = _read(fn)
@@ -526,6 +618,8 @@ FAMILIES = {
     "extract-temp": twins_extract_temp,
     "return-ifexp": twins_return_ifexp,
     "swap-independent": twins_swap_independent,
+    "reorder-elif": twins_reorder_elif,
+    "kw-to-positional": twins_kw_to_positional,
 }
 
 
